@@ -282,11 +282,12 @@ one (int m, int ci, int fill)
   expected (m, count, rb, &e);
   snprintf (cj, sizeof cj, "{\"method\":\"%s\",\"prefix\":%s,\"count\":%lu,\"fill\":%d,\"replay\":\"%d:%d:%d\"",
             vh_methods[m].name, vh_jstr (prefixes[m]), count, fill, m, ci, fill);
-  errno = 0;
   char *r = 0;
   int k = VH_TRY (0);
   if (k == 0)
     {
+      /* an arbitrary errno on entry (undocumented codes: a refusal must replace it) */
+      errno = ((m + ci + fill) & 1) ? EPERM : ((m + ci + fill) & 2) ? ERANGE : 0;
       r = crypt_gensalt_rn (prefixes[m], count, (const char *) rb, 64, out, sizeof out);
       VH_END ();
     }
